@@ -238,3 +238,16 @@ func (c *compiler) forDefaultCond(limit value.Value) func(value.Value) value.Val
 		return c.cbb.NewICmp(enum.IPredSLT, index, limit)
 	}
 }
+
+// C code sees a Wahrheitswert (i1) as a whole byte that is 0 or 1,
+// so i1 parameters and results are zero-extended as the C ABI requires for bool
+func zeroExtendBools(fun *ir.Func) {
+	if types.Equal(fun.Sig.RetType, ddpbool) {
+		fun.ReturnAttrs = append(fun.ReturnAttrs, enum.ReturnAttrZeroExt)
+	}
+	for _, param := range fun.Params {
+		if types.Equal(param.Typ, ddpbool) {
+			param.Attrs = append(param.Attrs, enum.ParamAttrZeroExt)
+		}
+	}
+}
